@@ -79,6 +79,8 @@ Fixpoint uri_encode (ignore : cset) (l : bytes) : bytes :=
   | c :: r => if ignore c then c :: uri_encode ignore r else tbl_get [] pg_encoded_tbl c ++ uri_encode ignore r
   end.
 
+Definition encode_path (l : bytes) : bytes := uri_encode pg_PathChars l.     (* Encode(l, PathChars()) *)
+
 Definition uri_path (u : uri) : bytes :=
   if negb (nonempty (u_path u)) && u_httpx u then pg_SlashPath else u_path u.
 
